@@ -90,7 +90,8 @@ func (s sortableByProperty) Less(i, j int) bool {
 		if rt.Kind() == reflect.Map && rt.Type().Key().Kind() == reflect.String {
 			elem := rt.MapIndex(reflect.ValueOf(s.key))
 			if elem.IsValid() {
-				return elem.Interface()
+				// a property that is a pointer (or a drop) sorts as the value a lookup of it yields
+				return ValueOf(elem.Interface()).Interface()
 			}
 		}
 		return nil
